@@ -1,5 +1,6 @@
 import re
 from copy import deepcopy
+from fractions import Fraction
 from xml.sax.saxutils import escape
 
 from bs4 import BeautifulSoup, NavigableString
@@ -198,7 +199,7 @@ class DFXPReader(BaseReader):
 
     @staticmethod
     def _convert_time_count_to_microseconds(time_count_match):
-        value = float(time_count_match.group('time_count'))
+        value = Fraction(time_count_match.group('time_count'))
         metric = time_count_match.group("metric")
         if metric == "h":
             microseconds = value * MICROSECONDS_PER_UNIT["hours"]
